@@ -124,6 +124,25 @@ def variant_rules(ck, mod, variant, errnos):
     keys = tracked_ret(f, oc)
     EINTR, EAGAIN = errnos["EINTR"], errnos["EAGAIN"]
     other = [errnos.get("EIO", 5), errnos.get("ENOSYS", 38), errnos.get("EFAULT", 14), 0, errnos.get("EINVAL", 22)]
+    # ... and every value the code itself compares errno with: a third "transient" errno is a class of its own (it must be permanent)
+    errno_calls = {("i", c.id) for c in f.calls("__errno_location")}
+    for I in f.insts:
+        if I.op in ("icmp", "switch"):
+            ops = [tuple(o) for o in I.ops if isinstance(o, (list, tuple))]
+            ld = [o for o in ops if o[0] == "i" and f.inst(ir.strip_int(f, o)[0]) is not None and f.inst(ir.strip_int(f, o)[0]).op == "load"
+                  and tuple(f.inst(ir.strip_int(f, o)[0]).ops[0]) in errno_calls]
+            if ld:
+                for o in ops:
+                    if o[0] == "c" and const_val(o) not in (EINTR, EAGAIN) and const_val(o) not in other:
+                        other.append(const_val(o))
+                for cs in (I.get("cases") or []):
+                    v_ = cs[0] if isinstance(cs, (list, tuple)) else cs
+                    try:
+                        v_ = int(v_)
+                    except (TypeError, ValueError):
+                        continue
+                    if v_ not in (EINTR, EAGAIN) and v_ not in other:
+                        other.append(v_)
     nclasses = 0
 
     def outcomes(r, en):
